@@ -809,7 +809,7 @@ func dependsOn(v ssa.Value, target func(ssa.Value) bool, seen map[ssa.Value]bool
 	case *ssa.Parameter, *ssa.FreeVar:
 		return false
 	case *ssa.Alloc:
-		// depends on everything stored into it
+		// depends on everything stored into it (directly, or element-wise for array literals)
 		for _, ref := range refs(x) {
 			if st, ok := ref.(*ssa.Store); ok && st.Addr == x {
 				if dependsOn(st.Val, target, seen) {
@@ -817,7 +817,7 @@ func dependsOn(v ssa.Value, target func(ssa.Value) bool, seen map[ssa.Value]bool
 				}
 			}
 		}
-		return false
+		return dependsOnStoresInto(x, target, seen)
 	case ssa.Instruction:
 		if u, ok := v.(*ssa.UnOp); ok && u.Op == token.MUL {
 			if a, ok := u.X.(*ssa.Alloc); ok && allocIsSimpleCell(a) {
